@@ -1,4 +1,198 @@
 #!/usr/bin/env python3
-"""thorough-tier second opinions (placeholder until the sanitizer builds are wired in)."""
+"""O5 - thorough-tier second opinions: compiler sanitizers, valgrind memcheck, Miri smoke.
+
+C09: ASan build of the plain workload (memory errors in dependencies / panics that abort),
+     valgrind memcheck (invalid reads/writes) on the release harness.
+C14: LeakSanitizer (ASan build, detect_leaks=1) and valgrind --leak-check=full as independent
+     leak oracles next to the counting allocator; Miri smoke on tiny generations.
+C07: ThreadSanitizer build (-Zbuild-std) of the 8-thread workload.
+
+One sanitizer per build; reports are counted from log files, de-duplicated by the first
+in-repo frame. A build or tool failure is inconclusive for that tool, never a violation.
+"""
+import glob, json, os, re, shutil, subprocess, time
+
+TARGET = "x86_64-unknown-linux-gnu"
+
+
+def _run(cmd, env=None, cwd=None, timeout=3600):
+    e = dict(os.environ, CARGO_NET_OFFLINE="true")
+    if env:
+        e.update(env)
+    try:
+        r = subprocess.run(cmd, env=e, cwd=cwd, stdout=subprocess.PIPE, stderr=subprocess.PIPE, text=True, timeout=timeout)
+        return r.returncode, r.stdout, r.stderr
+    except subprocess.TimeoutExpired as ex:
+        return None, (ex.stdout or b"").decode("utf-8", "replace") if isinstance(ex.stdout, bytes) else (ex.stdout or ""), "TIMEOUT"
+
+
+def _build(paths, name, rustflags, extra):
+    tdir = os.path.join(paths["build"], name + "-target")
+    cmd = ["cargo", "+nightly", "build", "--release", "--offline", "--target", TARGET] + extra
+    rc, out, err = _run(cmd, env={"RUSTFLAGS": rustflags, "CARGO_TARGET_DIR": tdir}, cwd=os.path.join(paths["verif"], "harness"))
+    exe = os.path.join(tdir, TARGET, "release", "pfv")
+    if rc != 0 or not os.path.exists(exe):
+        return None, (err or "")[-1500:]
+    return exe, ""
+
+
+def _first_repo_frame(block):
+    for line in block.splitlines():
+        m = re.search(r"(pickle_fuzzer::[A-Za-z0-9_:<>]+|pfv::[A-Za-z0-9_:<>]+)", line)
+        if m:
+            return m.group(1)
+    return "?"
+
+
+def _reports(logdir, marker):
+    text = ""
+    for f in sorted(glob.glob(os.path.join(logdir, "*"))):
+        try:
+            text += open(f, errors="replace").read() + "\n"
+        except OSError:
+            pass
+    blocks = [b for b in re.split(r"(?=^=+\d+=+ERROR|^WARNING: ThreadSanitizer|^Direct leak|^Indirect leak)", text, flags=re.M) if marker in b]
+    dedup = {}
+    for b in blocks:
+        dedup.setdefault(_first_repo_frame(b), b)
+    return len(blocks), dedup
+
+
 def run(pid, tier, seed, paths):
-    return {"violations_detail": [], "inconclusive": [], "coverage": {"note": "not run"}}
+    res = {"violations_detail": [], "inconclusive": [], "coverage": {}}
+    cov = res["coverage"]
+    out = paths["out"]
+    os.makedirs(os.path.join(out, "replay"), exist_ok=True)
+
+    def violate(sig, msg, witness):
+        n = len(res["violations_detail"])
+        p = os.path.join(out, "replay", "%s-%d-san%d.json" % (pid, seed, n))
+        with open(p, "w") as f:
+            json.dump(dict(witness, kind="sanitizer", property=pid, signature=sig, message=msg), f, indent=1)
+        res["violations_detail"].append({"signature": sig, "message": msg, "replay": p})
+
+    pfv = os.path.join(paths["build"], "harness-target", "release", "pfv")
+
+    if pid in ("C09", "C14"):
+        t0 = time.time()
+        exe, err = _build(paths, "asan", "-Zsanitizer=address -Cforce-frame-pointers=yes", [])
+        if exe is None:
+            res["inconclusive"].append("ASan build failed: " + err[-300:])
+        else:
+            logdir = os.path.join(out, "asan-logs-" + pid)
+            shutil.rmtree(logdir, ignore_errors=True)
+            os.makedirs(logdir)
+            n_cases = 160000
+            shards = 16
+            procs = []
+            for k in range(shards):
+                env = dict(os.environ, ASAN_OPTIONS="detect_leaks=%d:halt_on_error=1:abort_on_error=0:log_path=%s/asan.%d" % (
+                    1 if pid == "C14" else 0, logdir, k), RUST_BACKTRACE="0")
+                procs.append(subprocess.Popen([exe, "child", "sanwork", "single", str(seed * 100 + k), str(n_cases // shards)],
+                                              env=env, stdout=subprocess.PIPE, stderr=subprocess.PIPE, text=True))
+            rcs = [p.wait() for p in procs]
+            n_addr, addr = _reports(logdir, "AddressSanitizer")
+            n_leak, leak = _reports(logdir, "leak of")
+            cov["asan"] = {"generations": n_cases, "shards": shards, "exit_codes": sorted(set(rcs)),
+                           "address_reports": n_addr, "leak_reports": n_leak, "build_and_run_s": round(time.time() - t0, 1)}
+            if pid == "C09":
+                for frame, block in list(addr.items())[:5]:
+                    violate("C09:asan:" + frame, "AddressSanitizer report in the plain generation workload: " + block.strip().splitlines()[0][:200],
+                            {"report": block[:3000]})
+                bad = [rc for rc in rcs if rc not in (0,)]
+                if bad and not addr:
+                    res["inconclusive"].append("ASan workload shards exited with %s without a parsable report" % sorted(set(bad)))
+            else:
+                for frame, block in list(leak.items())[:5]:
+                    if "pickle_fuzzer::" in block:
+                        violate("C14:lsan:" + frame, "LeakSanitizer: " + block.strip().splitlines()[0][:200], {"report": block[:3000]})
+        # valgrind memcheck on the plain release harness
+        t0 = time.time()
+        n_vg = 16000
+        shards = 16
+        procs = []
+        vdir = os.path.join(out, "vg-logs-" + pid)
+        shutil.rmtree(vdir, ignore_errors=True)
+        os.makedirs(vdir)
+        for k in range(shards):
+            cmd = ["valgrind", "--quiet", "--error-exitcode=9", "--log-file=%s/vg.%d" % (vdir, k)]
+            if pid == "C14":
+                cmd += ["--leak-check=full", "--show-leak-kinds=definite,indirect", "--errors-for-leak-kinds=definite,indirect"]
+            else:
+                cmd += ["--leak-check=no"]
+            cmd += [pfv, "child", "sanwork", "single", str(seed * 100 + 50 + k), str(n_vg // shards)]
+            procs.append(subprocess.Popen(cmd, stdout=subprocess.PIPE, stderr=subprocess.PIPE, text=True))
+        rcs = [p.wait() for p in procs]
+        text = ""
+        for f in glob.glob(os.path.join(vdir, "*")):
+            text += open(f, errors="replace").read()
+        n_err = len(re.findall(r"Invalid (read|write)|uninitialised|definitely lost|indirectly lost", text))
+        cov["valgrind"] = {"generations": n_vg, "shards": shards, "exit_codes": sorted(set(rcs)), "error_lines": n_err,
+                           "run_s": round(time.time() - t0, 1)}
+        if any(rc == 9 for rc in rcs):
+            frames = sorted(set(re.findall(r"pickle_fuzzer::[A-Za-z0-9_:<>]+", text)))[:5]
+            if pid == "C14" and re.search(r"(definitely|indirectly) lost", text):
+                violate("C14:memcheck:" + (frames[0] if frames else "?"), "valgrind memcheck reports lost blocks after the generation workload",
+                        {"report": text[:4000]})
+            elif pid == "C09" and re.search(r"Invalid (read|write)|uninitialised", text):
+                violate("C09:memcheck:" + (frames[0] if frames else "?"), "valgrind memcheck reports a memory error in the generation workload",
+                        {"report": text[:4000]})
+        elif any(rc not in (0, 9) for rc in rcs):
+            res["inconclusive"].append("valgrind shards exited with %s" % sorted(set(rcs)))
+
+    if pid == "C14":
+        # Miri smoke: UB in dependencies / a third leak opinion on tiny generations (slow: the
+        # stdlib table is parsed under the interpreter when GLOBAL/INST is drawn)
+        t0 = time.time()
+        procs = []
+        n_miri = 8
+        for k in range(n_miri):
+            env = dict(os.environ, CARGO_NET_OFFLINE="true", MIRIFLAGS="-Zmiri-disable-isolation",
+                       CARGO_TARGET_DIR=os.path.join(paths["build"], "miri-target"))
+            procs.append(subprocess.Popen(["cargo", "+nightly", "miri", "run", "--offline", "--", "child", "sanwork", "tiny", str(seed * 10 + k), "2"],
+                                          cwd=os.path.join(paths["verif"], "harness"), env=env, stdout=subprocess.PIPE, stderr=subprocess.PIPE, text=True))
+            if k == 0:
+                # let the first one build the sysroot before the others start
+                try:
+                    procs[0].wait(timeout=900)
+                except subprocess.TimeoutExpired:
+                    pass
+        done, ub = 0, []
+        for p in procs:
+            try:
+                o, e = p.communicate(timeout=1500)
+            except subprocess.TimeoutExpired:
+                p.kill()
+                continue
+            if p.returncode == 0 and "sanwork tiny" in o:
+                done += 1
+            elif "Undefined Behavior" in e or "memory leaked" in e:
+                ub.append(e[-2500:])
+        cov["miri"] = {"processes": n_miri, "completed": done, "ub_or_leak_reports": len(ub), "run_s": round(time.time() - t0, 1)}
+        for e in ub[:3]:
+            if "memory leaked" in e:
+                violate("C14:miri:leak", "Miri reports leaked memory after tiny generations", {"report": e})
+
+    if pid == "C07":
+        t0 = time.time()
+        exe, err = _build(paths, "tsan", "-Zsanitizer=thread", ["-Zbuild-std"])
+        if exe is None:
+            res["inconclusive"].append("TSan build failed: " + err[-300:])
+        else:
+            logdir = os.path.join(out, "tsan-logs")
+            shutil.rmtree(logdir, ignore_errors=True)
+            os.makedirs(logdir)
+            rcs = []
+            for k in range(3):
+                env = dict(os.environ, TSAN_OPTIONS="halt_on_error=0:log_path=%s/tsan.%d" % (logdir, k))
+                rc, o, e = _run([exe, "child", "sanwork", "threads", str(seed + k), "150"], env=env, timeout=3000)
+                rcs.append(rc)
+            n_rep, rep = _reports(logdir, "ThreadSanitizer")
+            cov["tsan"] = {"runs": 3, "threads": 8, "cases_per_run": 150, "exit_codes": rcs, "reports": n_rep,
+                           "build_and_run_s": round(time.time() - t0, 1)}
+            for frame, block in list(rep.items())[:5]:
+                violate("C07:tsan:" + frame, "ThreadSanitizer report in the 8-thread generation workload: " + block.strip().splitlines()[0][:200],
+                        {"report": block[:3000]})
+            if any(rc == 7 for rc in rcs):
+                violate("C07:tsan_workload:mismatch", "threads produced different bytes for equal cases under the TSan build", {})
+    return res
